@@ -6,6 +6,10 @@ state machine that TLC explores completely for a bounded nesting depth (all inte
 length) with ExitRestores / FailedSetIsAtomic / GetSeesSet / CanonicalFirstWins checked on every
 transition; ConfigFnMC.tla enumerates update / merge / env / round-trip cases.
 
+Scalars are numbers or text: for a text prefix Python answers `key in d` (substring test) where it
+raises for a number, so _assign gets as far as the item assignment; the specification transcribes
+that, records what is in _record when a call raises, and lets the rollback itself fail.
+
 spec -> code: every state of the TLC graph is exported with the canonical history that reaches it;
 the real dask.config.set is driven along it on a private dict and back out through every exit, the
 dict is compared with the specification state after every call (every transition of the graph is
@@ -26,7 +30,8 @@ META = {
                  "model-checked by TLC for all nestings up to a depth bound; every graph transition replayed on the real "
                  "code; recorded random histories and update/merge/env calls decided by TLC",
     "level_text": "TLC explores every set/exit interleaving (any length) with nesting <= MaxDepth, 1-2 assignments per call "
-                  "over 8 initial trees x 10 dotted paths (twin spellings, prefix-is-a-scalar, duplicates), checking "
+                  "over 11 initial trees x 10 dotted paths (twin spellings, prefix-is-a-number, prefix-is-a-text that does / "
+                  "does not contain the next key, duplicates; number, text and mapping values), checking "
                   "ExitRestores, AllExitedRestores, FailedSetIsAtomic, GetSeesSet, CanonicalFirstWins on the transcribed "
                   "algorithm; each reachable state and each raising call is replayed on dask.config.set(config=private dict) "
                   "comparing the dict after every call and every exit and config.get under both spellings. update/merge/"
@@ -45,14 +50,35 @@ KEYS = ["a", "b", "c", "a-b", "a_b", "c-d", "c_d", "x"]
 
 
 # ------------------------------------------------------------------ projection tree <-> dict
+# text scalars: code number in the specification <-> the text; STR_HAS must equal Config!StrHas
+STR = {901: "zzz", 902: "abc", 903: "a_b"}
+STR_CODE = {v: k for k, v in STR.items()}
+STR_HAS = {901: set(), 902: {"a", "b", "c"}, 903: {"a", "b", "a_b"}}
+
+
+def check_str_table():
+    """reference guard: the substring table of the specification against Python's `in`"""
+    for code, text in STR.items():
+        for k in KEYS:
+            if (k in text) != (k in STR_HAS[code]):
+                raise MachineryError("Config!StrHas disagrees with Python: %r in %r" % (k, text))
+
+
 def to_py(n):
     if n["t"] == "L":
-        return n["v"]
+        v = n["v"]
+        return STR[v] if isinstance(v, int) and not isinstance(v, bool) and v in STR else v
     f = n["f"]
     return {k: to_py(v) for k, v in f.items()} if isinstance(f, dict) else {}
 
 
-def to_tla(x, leaf=lambda v: v):
+def _leaf(v):
+    if isinstance(v, str):
+        return STR_CODE.get(v, 999)      # an unknown text: a number that matches nothing
+    return v
+
+
+def to_tla(x, leaf=_leaf):
     if isinstance(x, dict):
         return {"t": "D", "f": {str(k): to_tla(v, leaf) for k, v in x.items()}}
     return {"t": "L", "v": leaf(x)}
@@ -131,6 +157,8 @@ def feats(asgs):
         f.append("prefix-conflict")
     if any(a["v"]["t"] == "D" for a in asgs):
         f.append("mapping-value")
+    if any(a["v"]["t"] == "L" and a["v"]["v"] in STR for a in asgs):
+        f.append("text-value")
     return "+".join(f) or "plain"
 
 
@@ -162,7 +190,9 @@ def replay_state(case):
             return [("SKIP", "set into a scalar prefix did not raise (result unspecified)", None)]
         if d != to_py(cur):
             kept = d == to_py(last["pc"])
-            sig = "set:raise-midway:earlier-assignments-kept" if kept else "set:raise:config-changed:" + feats(last["asgs"])
+            through_text = has_text(cur) or "text-value" in feats(last["asgs"])
+            sig = ("set:raise-midway:earlier-assignments-kept" + (":text-scalar-on-the-path" if through_text else "")) if kept \
+                else "set:raise:config-changed:" + feats(last["asgs"])
             return [("FailedSetIsAtomic", sig, {"raised": repr(ex)[:200], "config": copy.deepcopy(d)})]
     # leave every context, innermost first
     for i in reversed(range(len(objs))):
@@ -173,6 +203,13 @@ def replay_state(case):
             return [("ExitRestores", "exit:ExitRestores:" + feats(case["sets"][i]["asgs"]),
                      {"step": i, "config": copy.deepcopy(d), "expected": to_py(snaps[i])})]
     return []
+
+
+def has_text(n):
+    if n["t"] == "L":
+        return n["v"] in STR
+    f = n["f"]
+    return isinstance(f, dict) and any(has_text(v) for v in f.values())
 
 
 def _canon(n):
@@ -300,7 +337,7 @@ def rand_path(rng, d=None):
     existing scalar (a call that must raise) only now and then"""
     p = []
     for _ in range(rng.choice([1, 1, 2, 2, 3])):
-        if d is not None and not isinstance(d, dict) and rng.random() < 0.9:
+        if d is not None and not isinstance(d, dict) and rng.random() < (0.5 if isinstance(d, str) else 0.9):
             break
         if isinstance(d, dict) and d and rng.random() < 0.6:
             k = rng.choice(sorted(d))
@@ -315,8 +352,12 @@ def rand_path(rng, d=None):
     return p or [rng.choice(KEYS)]
 
 
+def _hist_val(rng):
+    return rng.choice(sorted(STR_CODE)) if rng.random() < 0.25 else rng.randint(1, 3)
+
+
 def record_history(rng, rid):
-    d = rand_tree(rng, 3)
+    d = rand_tree(rng, 3, val=_hist_val)
     init = to_tla(copy.deepcopy(d))
     ev, objs, counter = [], [], [100]
 
@@ -335,7 +376,8 @@ def record_history(rng, rid):
         asgs = []
         for _ in range(rng.choice([1, 1, 2, 2, 3])):
             counter[0] += 1
-            v = counter[0] if rng.random() < 0.85 else {"b": counter[0], "c_d": counter[0] + 500}
+            r_ = rng.random()
+            v = counter[0] if r_ < 0.75 else rng.choice(sorted(STR_CODE)) if r_ < 0.88 else {"b": counter[0], "c_d": counter[0] + 500}
             p = rand_path(rng, d)
             if asgs and rng.random() < 0.2:
                 p = list(asgs[-1]["p"]) if rng.random() < 0.5 else [alt(k) for k in asgs[-1]["p"]]
@@ -412,16 +454,17 @@ def first_clause(text):
 
 # ------------------------------------------------------------------ TLC runs
 INVS = ["AllExitedRestores", "CanonicalFirstWins", "SnapshotsChain"]
-PROPS = ["ExitRestores", "FailedSetIsAtomic", "GetSeesSet"]
+PROPS = ["ExitRestores", "ExitNeverRaises", "FailedSetIsAtomic", "FailedRollbackNeverRaises", "GetSeesSet"]
 FN_INVS = ["UpdateObeysContract", "NewDefaultsRule", "MergeRule", "EnvRule"]
 SMALL_PATHS = '{<<"a">>, <<"a", "b">>, <<"a", "b", "c">>, <<"a-b">>, <<"a_b">>, <<"a_b", "b">>, <<"a", "a-b">>}'
 TINY_PATHS = '{<<"a">>, <<"a", "b">>, <<"a-b">>, <<"a_b">>, <<"a_b", "b">>}'
 
 
-def mc_cases(ctx, paths, maxasg, depth, dictvals, label, export=True, timeout=1500):
-    consts = {"Inits": TLA("StdInits"), "Paths": TLA(paths), "MaxAsg": maxasg, "MaxDepth": depth,
-              "DictVals": dictvals, "Export": export}
-    spec, cfg = ctx.model(ctx.spec("sched", "ConfigMC.tla"), consts, invariants=INVS, properties=PROPS)
+LEAF, TEXT, DICT = '{"leaf"}', '{"leaf", "strz", "stra"}', '{"leaf", "dict"}'
+
+
+def mc_cases(ctx, paths, maxasg, depth, shapes, label, export=True, timeout=1500):
+    spec, cfg = _model_mc(ctx, paths, maxasg, depth, shapes, export)
     if not export:
         ctx.tlc(spec, cfg, label=label, timeout=timeout)
         return []
@@ -492,23 +535,29 @@ def record_all(ctx, nh, nf, report):
     return recs
 
 
-def _model_mc(ctx, paths, maxasg, depth, dictvals, export=True):
+def _model_mc(ctx, paths, maxasg, depth, shapes, export=True, record_first=None, invariants=INVS):
     consts = {"Inits": TLA("StdInits"), "Paths": TLA(paths), "MaxAsg": maxasg, "MaxDepth": depth,
-              "DictVals": dictvals, "Export": export}
-    return ctx.model(ctx.spec("sched", "ConfigMC.tla"), consts, invariants=INVS, properties=PROPS)
+              "ValShapes": TLA(shapes), "Export": export}
+    if record_first is not None:          # override the definition Config!RecordFirst (spec-level mutant)
+        consts["RecordFirst"] = record_first
+    return ctx.model(ctx.spec("sched", "ConfigMC.tla"), consts, invariants=invariants, properties=PROPS)
 
 
 def run(ctx):
     from concurrent.futures import ThreadPoolExecutor
+    check_str_table()
     if ctx.quick:
-        runs = [(SMALL_PATHS, 2, 2, False, "design+states: 2 assignments/call, nesting 2"),
-                ("StdPaths", 1, 3, False, "design+states: 1 assignment/call, nesting 3")]
+        runs = [(SMALL_PATHS, 2, 2, LEAF, "design+states: 2 assignments/call, nesting 2"),
+                ("StdPaths", 1, 3, LEAF, "design+states: 1 assignment/call, nesting 3"),
+                (TINY_PATHS, 2, 1, TEXT, "design+states: text values, 2 assignments/call, nesting 1")]
         cap = 40000
     else:
-        runs = [("StdPaths", 2, 2, False, "design+states: 2 assignments/call, nesting 2"),
-                ("StdPaths", 1, 4, False, "design+states: 1 assignment/call, nesting 4"),
-                (TINY_PATHS, 2, 2, True, "design+states: mapping values, 2 assignments/call, nesting 2"),
-                (TINY_PATHS, 2, 3, False, "design+states: 2 assignments/call, nesting 3")]
+        runs = [("StdPaths", 2, 2, LEAF, "design+states: 2 assignments/call, nesting 2"),
+                ("StdPaths", 1, 4, LEAF, "design+states: 1 assignment/call, nesting 4"),
+                (TINY_PATHS, 2, 2, DICT, "design+states: mapping values, 2 assignments/call, nesting 2"),
+                (TINY_PATHS, 2, 2, TEXT, "design+states: text values, 2 assignments/call, nesting 2"),
+                ("StdPaths", 1, 3, TEXT, "design+states: text values, 1 assignment/call, nesting 3"),
+                (TINY_PATHS, 2, 3, LEAF, "design+states: 2 assignments/call, nesting 3")]
         cap = 250000
     # code -> spec recording first (pure Python, seeded), then all TLC runs side by side
     side = []
@@ -518,7 +567,7 @@ def run(ctx):
         spec, cfg = _model_mc(ctx, paths, ma, depth, dv)
         jobs.append(("states", lambda spec=spec, cfg=cfg, label=label: ctx.tlc_cases(spec, cfg, label=label, timeout=2400)[0]))
     if not ctx.quick:      # design check only (no export), one level deeper than what is replayed
-        spec, cfg = _model_mc(ctx, "StdPaths", 1, 5, False, export=False)
+        spec, cfg = _model_mc(ctx, "StdPaths", 1, 5, LEAF, export=False)
         jobs.append(("design", lambda spec=spec, cfg=cfg: ctx.tlc(spec, cfg, label="design only: 1 assignment/call, nesting 5", timeout=2400)))
     spec, cfg = ctx.model(ctx.spec("sched", "ConfigFnMC.tla"), {"Fam": "all", "Vals": TLA(ctx.pick("{1}", "{1, 2}"))}, invariants=FN_INVS)
     jobs.append(("fn", lambda spec=spec, cfg=cfg: ctx.tlc_cases(spec, cfg, label="design+cases: update/merge/env/roundtrip", timeout=2400)[0]))
@@ -576,8 +625,11 @@ def replay(ctx, obj):
 def selftest(ctx):
     import dask.config as C
     ok = True
-    states = mc_cases(ctx, TINY_PATHS, 2, 2, False, "selftest states")
-    states = ctx.rng.sample(states, min(len(states), 6000))
+    check_str_table()
+    states = mc_cases(ctx, TINY_PATHS, 2, 2, LEAF, "selftest states")
+    states = ctx.rng.sample(states, min(len(states), 5000))
+    tstates = mc_cases(ctx, TINY_PATHS, 2, 1, TEXT, "selftest states, text values")
+    states += ctx.rng.sample(tstates, min(len(tstates), 3000))
     fns = fn_cases(ctx, "{1}", "selftest fn cases")
     fns = ctx.rng.sample(fns, min(len(fns), 4000))
     items = [("state", c) for c in states] + [("fn", c) for c in fns]
@@ -587,11 +639,12 @@ def selftest(ctx):
         judge_all(items, lambda sig, what, rp: out.append(sig), lambda r: None, lambda k, n: None)
         return out
 
-    base = [s for s in violations() if s != "set:raise-midway:earlier-assignments-kept"]
+    base = violations()
     print("selftest baseline (unchanged tree): %d unexpected violations %s" % (len(base), sorted(set(base))[:3]))
     ok &= not base
 
     orig_exit, orig_canon, orig_assign, orig_update, orig_interp = C.set.__exit__, C.canonical_name, C.set._assign, C.update, C.collect_env
+    orig_init = C.set.__init__
 
     def exit_forward(self, type, value, traceback):       # mutant 1: record replayed forwards (dropped reversed())
         for op, path, value in self._record:
@@ -616,20 +669,37 @@ def selftest(ctx):
         key = C.canonical_name(keys[0], d)
         path = path + (key,)
         if len(keys) == 1:
-            if record:
-                self._record.append(("insert", path, None))
+            entry = ("insert", path, None)
             d[key] = value
+            if record:
+                self._record.append(entry)
         else:
             if key not in d:
+                d[key] = {}
                 if record:
                     self._record.append(("insert", path, None))
-                d[key] = {}
                 record = False
             self._assign(keys[1:], value, d[key], path, record=record)
 
-    def assign_keeps_recording(self, keys, value, d, path=(), record=True):  # mutant 4: off-by-one: parent looked up with the raw key
+    def assign_raw_key(self, keys, value, d, path=(), record=True):  # mutant 4: wrong operand: the raw key goes into the path
         key = C.canonical_name(keys[0], d)
         path = path + (keys[0],)
+        if len(keys) == 1:
+            entry = ("replace", path, d[key]) if key in d else ("insert", path, None)
+            d[key] = value
+            if record:
+                self._record.append(entry)
+        else:
+            if key not in d:
+                d[key] = {}
+                if record:
+                    self._record.append(("insert", path, None))
+                record = False
+            self._assign(keys[1:], value, d[key], path, record=record)
+
+    def assign_record_first(self, keys, value, d, path=(), record=True):   # mutant 7: dask before 52c0f2a - undo entry appended BEFORE the assignment
+        key = C.canonical_name(keys[0], d)
+        path = path + (key,)
         if len(keys) == 1:
             if record:
                 if key in d:
@@ -644,6 +714,21 @@ def selftest(ctx):
                 d[key] = {}
                 record = False
             self._assign(keys[1:], value, d[key], path, record=record)
+
+    def init_no_rollback(self, arg=None, config=None, lock=C.config_lock, **kwargs):   # mutant 8: dask before 485c550 - no rollback when an assignment raises
+        if config is None:
+            config = C.global_config
+        with lock:
+            self.config = config
+            self._record = []
+            if arg is not None:
+                for key, value in arg.items():
+                    key = C.check_deprecations(key)
+                    self._assign(key.split("."), value, config)
+            if kwargs:
+                for key, value in kwargs.items():
+                    key = C.check_deprecations(key.replace("__", "."))
+                    self._assign(key.split("."), value, config)
 
     def update_old_loses(old, new, priority="new", defaults=None):           # mutant 5: priority='old' overwrites scalars
         for k, v in new.items():
@@ -669,37 +754,49 @@ def selftest(ctx):
     mutants = [("set.__exit__ replays the record forwards", "__exit__", exit_forward),
                ("canonical_name ignores the other spelling", "canonical_name", canon_nofallback),
                ("_assign records every leaf as insert", "_assign", assign_always_insert),
-               ("_assign records the raw instead of the canonical key", "_assign", assign_keeps_recording),
+               ("_assign records the raw instead of the canonical key", "_assign", assign_raw_key),
+               ("_assign appends the undo entry before the assignment (pre-52c0f2a)", "_assign", assign_record_first),
+               ("set.__init__ does not roll back when an assignment raises (pre-485c550)", "__init__", init_no_rollback),
                ("update(priority='old') overwrites existing scalars", "update", update_old_loses),
                ("collect_env does not lower-case names", "collect_env", collect_env_nolower)]
     for name, where, fn in mutants:
         try:
-            if where in ("__exit__", "_assign"):
+            if where in ("__exit__", "_assign", "__init__"):
                 setattr(C.set, where, fn)
             else:
                 setattr(C, where, fn)
-            v = [s for s in violations() if s != "set:raise-midway:earlier-assignments-kept"]
+            v = violations()
         finally:
             C.set.__exit__, C.canonical_name, C.set._assign, C.update, C.collect_env = orig_exit, orig_canon, orig_assign, orig_update, orig_interp
+            C.set.__init__ = orig_init
         print("selftest mutant [%s]: %s (%d violations, e.g. %s)" % (name, "DETECTED" if v else "MISSED", len(v), sorted(set(v))[:2]))
         ok &= bool(v)
 
-    # the proposed fix (roll back and re-raise) removes the known finding
-    orig_init = C.set.__init__
-
-    def init_atomic(self, arg=None, config=None, lock=C.config_lock, **kwargs):
-        try:
-            orig_init(self, arg, config, lock, **kwargs)
-        except BaseException:
-            self.__exit__(None, None, None)
-            raise
+    # the pre-52c0f2a order must be recognisable by the text-scalar cases alone (number prefixes never showed it)
     try:
-        C.set.__init__ = init_atomic
-        v = violations()
+        C.set._assign = assign_record_first
+        v = [x for x in violations() if "text-scalar-on-the-path" in x]
     finally:
-        C.set.__init__ = orig_init
-    print("selftest atomic set.__init__ (proposed fix): %s (%d violations)" % ("CLEAN" if not v else "STILL FAILS", len(v)))
-    ok &= not v
+        C.set._assign = orig_assign
+    print("selftest mutant [pre-52c0f2a order] caught through a text scalar on the path: %s (%d)" % ("YES" if v else "NO", len(v)))
+    ok &= bool(v)
+
+    # specification-level mutant: a model that appends the undo entry first must violate FailedSetIsAtomic
+    spec, cfg = _model_mc(ctx, TINY_PATHS, 2, 1, TEXT, export=False, record_first=True, invariants=[])
+    r = ctx.tlc(spec, cfg, label="selftest: RecordFirst model", allow_violation=True)
+    bad = [x for x in r.violated if x in ("FailedSetIsAtomic", "FailedRollbackNeverRaises")]
+    print("selftest spec mutant [Config!RecordFirst = TRUE]: TLC %s %s" % ("REFUTES" if bad else "accepts", r.violated))
+    ok &= bool(bad)
+
+    # anchors: the in-memory mutants above are copies of the code with one slip - the originals must still look like this
+    import inspect
+    src = inspect.getsource(C.set)
+    anchors = ["for op, path, value in reversed(self._record):", "key = canonical_name(keys[0], d)", "path = path + (key,)",
+               'entry = ("replace", path, d[key])', 'entry = ("insert", path, None)', "self._record.append(entry)",
+               "self.__exit__(None, None, None)", "d.pop(path[-1], None)", "d = d.setdefault(key, {})"]
+    missing = [a_ for a_ in anchors if a_ not in src]
+    print("selftest anchors in dask/config.py (class set): %s %s" % ("all %d present" % len(anchors) if not missing else "MISSING", missing))
+    ok &= not missing
 
     # code -> spec: corrupted / dropped events must be rejected, the untouched record accepted
     rng = ctx.rng
